@@ -155,6 +155,19 @@ pub fn replay(case: &Value) -> Result<String, String> {
             let bytes = front::build(front_from(case["front"].as_str().unwrap()), geom_from(&case["geom"]), &kvs)?;
             trailer_ok(&bytes).map(|_| "trailer is the reference checksum".into())
         }
+        "sinkpolicy-large" => {
+            use crate::sink::{Policy, ScriptSink};
+            let kvs = super::c07::large_inputs().into_iter().find(|x| Some(x.0) == case["name"].as_str()).map(|x| x.1).ok_or("unknown input")?;
+            for pol in [Policy::Cap(1), Policy::Cap(3), Policy::InterruptEach, Policy::Paged(512), Policy::Paged(4096), Policy::Paged(8192), Policy::Paged(65536)] {
+                let mut b = fst::raw::Builder::new(ScriptSink::new(vec![], pol)).map_err(|e| format!("{:?}", e))?;
+                for (k, v) in &kvs {
+                    b.insert(k, *v).map_err(|e| format!("{:?}", e))?;
+                }
+                let sink = b.into_inner().map_err(|e| format!("{:?}", e))?;
+                trailer_ok(&sink.data).map_err(|e| format!("{:?}: {}", pol, e))?;
+            }
+            Ok("all policy sinks give the reference checksum".into())
+        }
         "sinkpolicy" => {
             use crate::sink::{Policy, ScriptSink};
             let kvs = kvs_from(&case["kvs"]);
@@ -185,7 +198,7 @@ pub fn replay(case: &Value) -> Result<String, String> {
 pub fn plan(tier: Tier) -> Plan {
     let mut p = Plan::new("C08", "model_checking");
     let thorough = tier.thorough();
-    p.rule = "(a) every single-byte mutant (every position x all 255 other values) and every 2-4 byte burst (xor masks {01,80,ff} per byte) of every FST built from subsets of U_ab3 with <= 3 keys (thorough: <= 5) plus fan-out FSTs: 'opens and verify()==Ok' is the violation; (b) the trailing 4 bytes of every builder output (all subsets of U_ab3/U_abc2/U_raw2 x patterns, fan-out families, single-key ladders giving every file length 37..4150) equal an independent bitwise masked CRC-32C; (c) through hook H3 every 2-cut and 3-cut of buffers of length 0..64 (3 contents) and cuts at 0,1,15,16,17,31,32,33 from either end for lengths up to 4096; non-trivial = mutants + chunkings with >= 2 non-empty chunks".into();
+    p.rule = "(a) every single-byte mutant (every position x all 255 other values) and every 2-4 byte burst (xor masks {01,80,ff} per byte) of every FST built from subsets of U_ab3 with <= 3 keys (thorough: <= 5) plus fan-out FSTs: 'opens and verify()==Ok' is the violation; (b) the trailing 4 bytes of every builder output (all subsets of U_ab3/U_abc2/U_raw2 x patterns, fan-out families, single-key ladders giving every file length 37..4150 and 150 lengths around each of 2^13..2^17) equal an independent bitwise masked CRC-32C; (c) through hook H3 every 2-cut and 3-cut of buffers of length 0..64 (3 contents) and cuts at 0,1,15,16,17,31,32,33 from either end for lengths up to 4096; non-trivial = mutants + chunkings with >= 2 non-empty chunks".into();
     p.assumptions = vec![
         "independent reference: bit-by-bit reflected CRC-32C (0x82F63B78), validated on the RFC 3720 vector, rotate-right-15 + 0xA282EAD8 mask".into(),
         "chunking by a sink: policy sinks (cap 1..16, Interrupted before every call) here; the full answer-schedule space is C07's".into(),
@@ -304,6 +317,44 @@ pub fn plan(tier: Tier) -> Plan {
             }
         }
     }));
+    // (d2) larger outputs through policy sinks
+    for (name, kvs) in super::c07::large_inputs() {
+        p.units.push(unit("large-inputs-sink-policies", format!("sink policies {}", name), move |st, rep| {
+            use crate::sink::{Policy, ScriptSink};
+            for pol in [Policy::Cap(1), Policy::Cap(3), Policy::InterruptEach, Policy::Paged(512), Policy::Paged(4096), Policy::Paged(8192), Policy::Paged(65536)] {
+                st.evals += 1;
+                st.states += 1;
+                st.count("sink_policy_runs", 1);
+                let r = guard(|| {
+                    let mut b = fst::raw::Builder::new(ScriptSink::new(vec![], pol)).map_err(|e| format!("{:?}", e))?;
+                    for (k, v) in &kvs {
+                        b.insert(k, *v).map_err(|e| format!("{:?}", e))?;
+                    }
+                    let sink = b.into_inner().map_err(|e| format!("{:?}", e))?;
+                    trailer_ok(&sink.data)
+                })
+                .and_then(|x| x);
+                if let Err(msg) = r {
+                    rep.violation(format!("sink policy {} {:?}", name, pol), format!("bytes written through a {:?} sink: {}", pol, msg), json!({"kind": "sinkpolicy-large", "name": name}));
+                }
+            }
+        }));
+    }
+    // (b2) file lengths around powers of two from 8 KiB to 128 KiB (block-wise checksum code)
+    for k in 13..=17u32 {
+        p.units.push(unit("single-key-length-ladder-around-powers-of-two", format!("ladder around 2^{}", k), move |st, rep| {
+            let centre = 1usize << k;
+            for l in (centre - 110)..(centre + 40) {
+                st.evals += 1;
+                st.states += 1;
+                st.count("ladder_files", 1);
+                let r = front::build(Front::RawInsert, (1, 1), &[(vec![b'a'; l], 1)]).and_then(|b| trailer_ok(&b));
+                if let Err(msg) = r {
+                    rep.violation(format!("ladder {}", l), msg, json!({"kind": "ladder", "len": l}));
+                }
+            }
+        }));
+    }
     // (c) chunkings
     for kind in 0..3usize {
         p.units.push(unit("chunkings-len-0..64-all-cuts", format!("chunkings small kind {}", kind), move |st, rep| {
